@@ -52,9 +52,12 @@ func (ex *Exec) obligationFull(fr *Frame, st *State, kind, clause, goal string, 
 		name += "#" + ordinal
 	}
 	o := &Obligation{Name: name, Kind: kind, Clause: clause, Where: ex.where(), Trace: append([]string{}, st.trace...),
-		Assumes: append([]string{}, st.pc...), Goal: goal, Func: vc.prog.funcName(vc.fn), Ground: ground}
+		Assumes: append([]string{}, st.pc...), Goal: goal, Func: vc.prog.funcName(vc.fn), Ground: ground, Props: vc.curProps}
 	vc.obligations = append(vc.obligations, o)
-	st.assume(goal)
+	if kind != "protocol" {
+		// protocol rules are independent checks: one that fails must not make the rest of the path vacuous
+		st.assume(goal)
+	}
 }
 
 // loopHead implements the cut. Returns true when execution of the header
@@ -102,6 +105,15 @@ func (ex *Exec) loopHead(fr *Frame, b *ssa.BasicBlock, ord int, pred *ssa.BasicB
 		fs := evalInvs(st, true)
 		for i, f := range fs {
 			ex.obligationFull(fr, st, "inv-preserved", invs[i].Text, f, false, fmt.Sprintf("loop%d.%d", ord, invs[i].Ordinal), false)
+		}
+		for _, h := range le.framed {
+			cur := vc.heapGetByName(st, h)
+			old := vc.heapGetByName(vc.entry, h)
+			if cur.S == old.S {
+				continue
+			}
+			ex.obligationFull(fr, st, "frame", "loop keeps objects that existed at entry unchanged: "+h,
+				fmt.Sprintf("(forall ((r!f Int)) (=> (<= r!f alloc0) (= (select %s r!f) (select %s r!f))))", cur.S, old.S), false, fmt.Sprintf("loop%d.%s", ord, h), true)
 		}
 		if dec != nil && le.hasDec {
 			d := evalDec(st)
@@ -155,10 +167,28 @@ func (ex *Exec) loopHead(fr *Frame, b *ssa.BasicBlock, ord int, pred *ssa.BasicB
 		outer.add(ws)
 	}
 	st.note("loop %d of %s: cut (havoc %d cells, %d heap components)", ord, fr.fn.Name(), len(ws.cells), len(ws.heaps))
+	// implicit frame invariant: heap components outside the function's modifies clause keep the
+	// objects that existed at function entry unchanged (fresh objects may be written freely)
+	var framed []string
+	if tc := ex.topContract(); tc != nil && tc.HasMod && !ws.all {
+		menv := ex.newEnv(st, nil, vc.fn.Pkg.Pkg, fr)
+		mods := ex.resolveModifies(tc, menv)
+		if !mods.all {
+			for _, h := range sortedKeys(ws.heaps) {
+				if mods.heaps[h] || !(strings.HasPrefix(h, "H_") || strings.HasPrefix(h, "HP_")) {
+					continue
+				}
+				cur := vc.heapGetByName(st, h)
+				old := vc.heapGetByName(vc.entry, h)
+				st.assume(fmt.Sprintf("(forall ((r!f Int)) (! (=> (<= r!f alloc0) (= (select %s r!f) (select %s r!f))) :pattern ((select %s r!f))))", cur.S, old.S, cur.S))
+				framed = append(framed, h)
+			}
+		}
+	}
 	for _, f := range evalInvs(st, false) {
 		st.assume(f)
 	}
-	le := &loopEntry{}
+	le := &loopEntry{framed: framed}
 	if dec != nil {
 		le.hasDec = true
 		le.decPrev = Term{evalDec(st), SInt}
@@ -208,6 +238,17 @@ func (vc *VC) entryFor(fr *Frame) *State {
 // bindParams binds the parameter names of the frame's function to their
 // entry values (used for old-free references in requires/ensures).
 func (ex *Exec) bindParams(env *Env, fr *Frame) {
+	for i, fv := range fr.fn.FreeVars {
+		if i < len(fr.free) && fr.free[i].K == VPtr {
+			v := ex.load(env.st, fr.free[i].P)
+			et := fv.Type().(*types.Pointer).Elem()
+			if v.K == VTerm {
+				env.params[fv.Name()] = TVal{T: v.T, Ty: et}
+			} else if v.K == VPtr {
+				env.params[fv.Name()] = TVal{T: ex.materialize(env.st, v.P), Ty: et}
+			}
+		}
+	}
 	for i, p := range fr.fn.Params {
 		if i < len(fr.params) {
 			v := fr.params[i]
@@ -215,6 +256,9 @@ func (ex *Exec) bindParams(env *Env, fr *Frame) {
 				env.params[p.Name()] = TVal{T: v.T, Ty: p.Type()}
 			} else if v.K == VPtr {
 				env.params[p.Name()] = TVal{T: ex.materialize(env.st, v.P), Ty: p.Type()}
+			}
+			if fr.contract != nil && i < len(fr.contract.Alias) {
+				env.params[fr.contract.Alias[i]] = env.params[p.Name()]
 			}
 		}
 	}
